@@ -14,6 +14,9 @@ func FloatValueApprox(fraction, margin float64) Value {
 			return false, false
 		}
 		fx, fy := x.Float(), y.Float()
+		if fx == fy || (math.IsNaN(fx) && math.IsNaN(fy)) {
+			return true, true // also covers infinities, for which fx-fy is NaN
+		}
 		relMarg := fraction * math.Min(math.Abs(fx), math.Abs(fy))
 		return math.Abs(fx-fy) <= math.Max(margin, relMarg), true
 	}
